@@ -2180,6 +2180,8 @@ template< size_t L>
    FixedString< L>& FixedString< L>::insert( size_t index,
       const std::string& str, size_t index_str, size_t count) noexcept
 {
+   if (index_str > str.length())
+      return *this;
    return insert( index, str.substr( index_str, count));
 } // FixedString< L>::insert
 
@@ -2339,7 +2341,7 @@ template< size_t L>
    // test if string is already full
    if (mLength == L)
       return *this;
-   return append( std::string( count, ch));
+   return append( std::string( std::min( count, L - mLength), ch));
 } // FixedString< L>::append
 
 
@@ -2863,7 +2865,7 @@ template< size_t L>
       FixedString< L>::replace( size_t pos, size_t count, size_t count2,
          char ch) noexcept
 {
-   return replace( pos, count, std::string( count2, ch));
+   return replace( pos, count, std::string( std::min( count2, L), ch));
 } // FixedString< L>::replace
 
 
